@@ -199,6 +199,73 @@ theorem applyExcluded_keeps (cfg : Cfg) (hfix : cfg.fixDeleteAll = true) (B : Na
     simp only [List.map_cons, applyExcluded, hd] at h
     exact k1.trans (applyExcluded_keeps cfg hfix B ps e1 hg1 (fun q hq => hok q (by simp [hq])) e' h)
 
+/-! ### F02-2BR repaired: the list object after `wcoll_expand`, exclusions name by name -/
+theorem numbered_r : ∀ (i : Nat) (l : List HRange), (numbered i l).map (·.r) = l
+  | _, [] => rfl
+  | i, r :: rs => by simp [numbered, numbered_r (i + 1) rs]
+
+theorem numbered_ids : ∀ (i : Nat) (l : List HRange), (numbered i l).map (·.id) = List.range' i l.length
+  | _, [] => rfl
+  | i, r :: rs => by simp [numbered, numbered_ids (i + 1) rs, List.range'_succ]
+
+theorem ofHL_ranges (h : HL) : (ofHL h).ranges = h.ranges.toList := by
+  simp [ofHL, EL.ranges, numbered_r]
+
+theorem ofHL_hosts (h : HL) : (ofHL h).hosts = h.hosts := by
+  simp [EL.hosts, ofHL_ranges, HL.hosts]
+
+theorem ofHL_good (h : HL) (hg : h.Good) : (ofHL h).Good := by
+  refine ⟨by rw [ofHL_ranges]; exact hg.1, ?_⟩
+  rw [ofHL_hosts]; exact hg.2
+
+theorem ofHL_ids (h : HL) : (ofHL h).IdsOk := by
+  unfold EL.IdsOk
+  refine ⟨by show ((numbered 0 h.ranges.toList).map (·.id)).Nodup; rw [numbered_ids]; exact List.nodup_range', ?_⟩
+  intro o ho
+  have : o.id ∈ (numbered 0 h.ranges.toList).map (·.id) := List.mem_map.mpr ⟨o, ho, rfl⟩
+  rw [numbered_ids] at this
+  have := List.mem_range'_1.mp this
+  show o.id < h.ranges.toList.length
+  omega
+
+/-- an exclusion entry for the repaired `wcoll_apply_excluded`: it parses to `names`, and every one of
+    these names, handed to `hostlist_delete` on its own, is an entry that denotes just itself -/
+def Entry2Ok (cfg : Cfg) (s : Str) (names : List Str) : Prop :=
+  EntryOk cfg s names ∧ ∀ n ∈ names, EntryOk cfg n [n]
+
+theorem applyExcluded2_repaired (cfg : Cfg) (hfix : cfg.fixDeleteAll = true) (B : Nat) :
+    ∀ (es : List (Str × List Str)) (e : EL), e.Good → (∀ p ∈ es, Entry2Ok cfg p.1 p.2) →
+    ∃ e', applyExcluded2 cfg (es.map (·.1)) e = .ok e' ∧ e'.Good ∧
+      e'.hosts = e.hosts.filter (fun h => !(es.flatMap (·.2)).contains h) ∧ Keeps B e e'
+  | [], e, hg, _ => ⟨e, rfl, hg, (List.filter_eq_self.mpr (by intro a _; rfl)).symm, Keeps.refl B e⟩
+  | p :: ps, e, hg, hok => by
+    obtain ⟨⟨t, hc, htg, htf, hlen, hn, hsm⟩, hone⟩ := hok p (by simp)
+    -- the names, popped: newest first
+    let es1 : List (Str × List Str) := p.2.reverse.map fun n => (n, [n])
+    have hes1 : es1.map (·.1) = p.2.reverse := by simp [es1, List.map_map, Function.comp_def]
+    have hfl1 : es1.flatMap (·.2) = p.2.reverse := by
+      simp only [es1, List.flatMap_map]
+      induction p.2.reverse with
+      | nil => rfl
+      | cons a l ih => simp [List.flatMap_cons, ih]
+    have hok1 : ∀ q ∈ es1, EntryOk cfg q.1 q.2 := by
+      intro q hq
+      simp only [es1, List.mem_map, List.mem_reverse] at hq
+      obtain ⟨n, hn', rfl⟩ := hq
+      exact hone n hn'
+    obtain ⟨e1, ha1, g1, hh1⟩ := applyExcluded_repaired cfg hfix es1 e hg hok1
+    have k1 := applyExcluded_keeps cfg hfix B es1 e hg hok1 e1 ha1
+    rw [hes1] at ha1
+    obtain ⟨e2, ha2, g2, hh2, k2⟩ := applyExcluded2_repaired cfg hfix B ps e1 g1 (fun q hq => hok q (by simp [hq]))
+    refine ⟨e2, ?_, g2, ?_, k1.trans k2⟩
+    · simp only [List.map_cons, applyExcluded2, hc]
+      rw [popAll_spec cfg _ _ htg htf (by omega), ← hn]
+      simp only [ha1, ha2]
+    · rw [hh2, hh1, hfl1, List.filter_filter]
+      apply List.filter_congr
+      intro h _
+      simp only [List.flatMap_cons, List.contains_append, Bool.not_or, List.contains_reverse, Bool.and_comm]
+
 /-! ### one-bracket words: every first-level name is a plain name -/
 def OneBracket : Spec.Word → Prop
   | .plain _ => True
@@ -242,6 +309,8 @@ structure Domain (cfg : Cfg) (env : Env) (ws : List CW) : Prop where
   one : ∀ w ∈ tgts ws, OneBracket w
   dom2 : ∀ w ∈ tgts ws, ∀ w' ∈ reword w, wordDom cfg w'
   entries : ∀ w ∈ xcls ws, EntryOk cfg (Spec.renderWord w) w.expand₁
+  /-- F02-2BR repaired: each name of an exclusion word goes through `hostlist_delete` on its own -/
+  entries2 : cfg.fix2Br = true → ∀ w ∈ xcls ws, ∀ n ∈ w.expand₁, EntryOk cfg n [n]
   oracle : ∀ p ∈ regs ws, ∀ h ∈ Spec.expand₁ (tgts ws), (env.rematch p.2 h).isSome = true
   low : (assembleE cfg (tgts ws) EL.new).HiBelow (10 ^ 15)
 
@@ -261,32 +330,6 @@ theorem cliWords_correct (cfg : Cfg) (hD1 : cfg.fixDeleteAll = true) (hD17 : cfg
   have hits0 : (assembleE cfg (tgts ws) EL.new).its = [] := by rw [i0]; rfl
   have hT : (assembleE cfg (tgts ws) EL.new).hosts = Spec.expand₁ (tgts ws) := by
     rw [h0]; simp [EL.new, EL.hosts, EL.ranges]
-  -- exclusions (the stack is walked newest first)
-  let es : List (Str × List Str) := ((xcls ws).reverse).map fun w => (Spec.renderWord w, w.expand₁)
-  have hes : es.map (·.1) = ((xcls ws).map Spec.renderWord).reverse := by
-    simp [es, List.map_reverse]
-  have hesok : ∀ p ∈ es, EntryOk cfg p.1 p.2 := by
-    intro p hp
-    simp only [es, List.mem_map, List.mem_reverse] at hp
-    obtain ⟨w, hw, rfl⟩ := hp
-    exact hd.entries w hw
-  obtain ⟨e1, ha1, g1, hh1⟩ := applyExcluded_repaired cfg hD1 es _ g0 hesok
-  have k1 := applyExcluded_keeps cfg hD1 (10 ^ 15) es _ g0 hesok e1 ha1
-  have hX : es.flatMap (·.2) = ((xcls ws).reverse).flatMap Spec.Word.expand₁ := by
-    simp only [es, List.flatMap_map]
-  -- filters
-  let P : HRange → Prop := fun r => r.hi < 10 ^ 15
-  have hmono : ∀ r r' : HRange, P r → r'.width = r.width → r'.hi ≤ r.hi → r'.single = r.single → P r' :=
-    fun r r' h _ hh _ => Nat.lt_of_le_of_lt hh h
-  have hPF : ∀ r, P r → r.PrintsFull cfg := fun _ _ => Or.inl hD17
-  have hsub1 : ∀ h ∈ e1.hosts, h ∈ Spec.expand₁ (tgts ws) := by
-    intro h hh; rw [hh1, hT] at hh; exact (List.mem_filter.mp hh).1
-  obtain ⟨e2, ha2, hh2, hid2, g2, hP2, _⟩ := applyRegex_spec cfg hD19 P hmono hPF env (regs ws).reverse e1
-    (k1.ids hid0) g1 (k1.hi hd.low) (k1.its hits0)
-    (fun p hp h hh => hd.oracle p (List.mem_reverse.mp hp) h (hsub1 h hh))
-  -- re-expansion: every surviving name is a plain name
-  have hsub2 : ∀ h ∈ e2.hosts, h ∈ Spec.expand₁ (tgts ws) := by
-    intro h hh; rw [hh2] at hh; exact hsub1 h (List.mem_filter.mp hh).1
   have hplain : ∀ h ∈ Spec.expand₁ (tgts ws), (Spec.Word.plain h).WF = true ∧ wordDom cfg (Spec.Word.plain h) := by
     intro h hh
     unfold Spec.expand₁ at hh
@@ -294,31 +337,6 @@ theorem cliWords_correct (cfg : Cfg) (hD1 : cfg.fixDeleteAll = true) (hD17 : cfg
     have hr := reword_oneBracket w (hd.one w hw)
     have hmem : Spec.Word.plain h ∈ reword w := by rw [hr]; exact List.mem_map.mpr ⟨h, hx, rfl⟩
     exact ⟨reword_wf w (hd.words.tgt w hw).1 _ hmem, hd.dom2 w hw _ hmem⟩
-  have hg2' : e2.toHL.Good := (EL.good_iff e2).mp g2
-  have hsf : ∀ r ∈ e2.toHL.ranges.toList, r.ShiftFits := by
-    intro r hr _
-    have hr' : r ∈ e2.ranges := by simpa [EL.toHL] using hr
-    have := ndig_le_of_lt_pow (by decide : 0 < 15) (hP2 r hr')
-    omega
-  obtain ⟨h', hw1, _, hw3⟩ := wcollExpand_words cfg e2.toHL hg2' hsf (e2.hosts.map Spec.Word.plain)
-    (by rw [EL.toHL_hosts, map_render_plain])
-    (fun w hw => by
-      obtain ⟨h, hh, rfl⟩ := List.mem_map.mp hw
-      exact (hplain h (hsub2 h hh)).1)
-    (fun w hw => by
-      obtain ⟨h, hh, rfl⟩ := List.mem_map.mp hw
-      exact (hplain h (hsub2 h hh)).2)
-  -- put the stages together
-  unfold finish
-  simp only
-  rw [← hes, ha1]
-  simp only
-  rw [ha2]
-  simp only
-  rw [hw1]
-  simp only [Res.ok.injEq]
-  rw [hw3, expand₁_plain, hh2, hh1, hT, hX]
-  unfold specWords
   have hf1 : (Spec.expand₁ (tgts ws)).filter (fun h => !(((xcls ws).reverse).flatMap Spec.Word.expand₁).contains h) =
       (Spec.expand₁ (tgts ws)).filter (fun h => !(Spec.expand₁ (xcls ws)).contains h) := by
     apply List.filter_congr
@@ -326,10 +344,127 @@ theorem cliWords_correct (cfg : Cfg) (hD1 : cfg.fixDeleteAll = true) (hD17 : cfg
     congr 1
     rw [Bool.eq_iff_iff]
     simp [Spec.expand₁, List.contains_iff_mem]
-  rw [hf1]
-  apply List.filter_congr
-  intro h _
-  simp [keepAll, List.all_reverse]
+  rcases Bool.eq_false_or_eq_true cfg.fix2Br with h2 | h2
+  · -- F02-2BR repaired: re-expansion first (every first-level name is a plain name: nothing changes),
+    -- then the exclusions name by name, then the filters
+    let e0 := assembleE cfg (tgts ws) EL.new
+    have hg0' : e0.toHL.Good := (EL.good_iff e0).mp g0
+    have hsf : ∀ r ∈ e0.toHL.ranges.toList, r.ShiftFits := by
+      intro r hr _
+      have hr' : r ∈ e0.ranges := by simpa [EL.toHL] using hr
+      have := ndig_le_of_lt_pow (by decide : 0 < 15) (hd.low r hr')
+      omega
+    obtain ⟨h', hw1, hg', hw3⟩ := wcollExpand_words cfg e0.toHL hg0' hsf (e0.hosts.map Spec.Word.plain)
+      (by rw [EL.toHL_hosts, map_render_plain])
+      (fun w hw => by
+        obtain ⟨h, hh, rfl⟩ := List.mem_map.mp hw
+        exact (hplain h (by rw [← hT]; exact hh)).1)
+      (fun w hw => by
+        obtain ⟨h, hh, rfl⟩ := List.mem_map.mp hw
+        exact (hplain h (by rw [← hT]; exact hh)).2)
+    have hH : (ofHL h').hosts = Spec.expand₁ (tgts ws) := by
+      rw [ofHL_hosts, hw3, expand₁_plain, hT]
+    let es : List (Str × List Str) := ((xcls ws).reverse).map fun w => (Spec.renderWord w, w.expand₁)
+    have hes : es.map (·.1) = ((xcls ws).map Spec.renderWord).reverse := by
+      simp [es, List.map_reverse]
+    have hesok : ∀ p ∈ es, Entry2Ok cfg p.1 p.2 := by
+      intro p hp
+      simp only [es, List.mem_map, List.mem_reverse] at hp
+      obtain ⟨w, hw, rfl⟩ := hp
+      exact ⟨hd.entries w hw, hd.entries2 h2 w hw⟩
+    obtain ⟨e1, ha1, g1, hh1, k1⟩ := applyExcluded2_repaired cfg hD1 0 es (ofHL h') (ofHL_good h' hg') hesok
+    have hX : es.flatMap (·.2) = ((xcls ws).reverse).flatMap Spec.Word.expand₁ := by
+      simp only [es, List.flatMap_map]
+    have hsub1 : ∀ h ∈ e1.hosts, h ∈ Spec.expand₁ (tgts ws) := by
+      intro h hh; rw [hh1, hH] at hh; exact (List.mem_filter.mp hh).1
+    obtain ⟨e2, ha2, hh2, _, _, _, _⟩ := applyRegex_spec cfg hD19 (fun _ => True) (fun _ _ _ _ _ _ => trivial)
+      (fun _ _ => Or.inl hD17) env (regs ws).reverse e1 (k1.ids (ofHL_ids h')) g1 (fun _ _ => trivial) (k1.its rfl)
+      (fun p hp h hh => hd.oracle p (List.mem_reverse.mp hp) h (hsub1 h hh))
+    unfold finish
+    simp only [h2, ↓reduceIte]
+    unfold finish2
+    rw [hw1]
+    simp only
+    rw [← hes, ha1]
+    simp only
+    rw [ha2]
+    simp only [Res.ok.injEq]
+    rw [hh2, hh1, hH, hX]
+    unfold specWords
+    rw [hf1]
+    apply List.filter_congr
+    intro h _
+    simp [keepAll, List.all_reverse]
+  · -- as found: exclusions and filters on the first-level names, re-expansion last
+    -- exclusions (the stack is walked newest first)
+    let es : List (Str × List Str) := ((xcls ws).reverse).map fun w => (Spec.renderWord w, w.expand₁)
+    have hes : es.map (·.1) = ((xcls ws).map Spec.renderWord).reverse := by
+      simp [es, List.map_reverse]
+    have hesok : ∀ p ∈ es, EntryOk cfg p.1 p.2 := by
+      intro p hp
+      simp only [es, List.mem_map, List.mem_reverse] at hp
+      obtain ⟨w, hw, rfl⟩ := hp
+      exact hd.entries w hw
+    obtain ⟨e1, ha1, g1, hh1⟩ := applyExcluded_repaired cfg hD1 es _ g0 hesok
+    have k1 := applyExcluded_keeps cfg hD1 (10 ^ 15) es _ g0 hesok e1 ha1
+    have hX : es.flatMap (·.2) = ((xcls ws).reverse).flatMap Spec.Word.expand₁ := by
+      simp only [es, List.flatMap_map]
+    -- filters
+    let P : HRange → Prop := fun r => r.hi < 10 ^ 15
+    have hmono : ∀ r r' : HRange, P r → r'.width = r.width → r'.hi ≤ r.hi → r'.single = r.single → P r' :=
+      fun r r' h _ hh _ => Nat.lt_of_le_of_lt hh h
+    have hPF : ∀ r, P r → r.PrintsFull cfg := fun _ _ => Or.inl hD17
+    have hsub1 : ∀ h ∈ e1.hosts, h ∈ Spec.expand₁ (tgts ws) := by
+      intro h hh; rw [hh1, hT] at hh; exact (List.mem_filter.mp hh).1
+    obtain ⟨e2, ha2, hh2, hid2, g2, hP2, _⟩ := applyRegex_spec cfg hD19 P hmono hPF env (regs ws).reverse e1
+      (k1.ids hid0) g1 (k1.hi hd.low) (k1.its hits0)
+      (fun p hp h hh => hd.oracle p (List.mem_reverse.mp hp) h (hsub1 h hh))
+    -- re-expansion: every surviving name is a plain name
+    have hsub2 : ∀ h ∈ e2.hosts, h ∈ Spec.expand₁ (tgts ws) := by
+      intro h hh; rw [hh2] at hh; exact hsub1 h (List.mem_filter.mp hh).1
+    have hplain : ∀ h ∈ Spec.expand₁ (tgts ws), (Spec.Word.plain h).WF = true ∧ wordDom cfg (Spec.Word.plain h) := by
+      intro h hh
+      unfold Spec.expand₁ at hh
+      obtain ⟨w, hw, hx⟩ := List.mem_flatMap.mp hh
+      have hr := reword_oneBracket w (hd.one w hw)
+      have hmem : Spec.Word.plain h ∈ reword w := by rw [hr]; exact List.mem_map.mpr ⟨h, hx, rfl⟩
+      exact ⟨reword_wf w (hd.words.tgt w hw).1 _ hmem, hd.dom2 w hw _ hmem⟩
+    have hg2' : e2.toHL.Good := (EL.good_iff e2).mp g2
+    have hsf : ∀ r ∈ e2.toHL.ranges.toList, r.ShiftFits := by
+      intro r hr _
+      have hr' : r ∈ e2.ranges := by simpa [EL.toHL] using hr
+      have := ndig_le_of_lt_pow (by decide : 0 < 15) (hP2 r hr')
+      omega
+    obtain ⟨h', hw1, _, hw3⟩ := wcollExpand_words cfg e2.toHL hg2' hsf (e2.hosts.map Spec.Word.plain)
+      (by rw [EL.toHL_hosts, map_render_plain])
+      (fun w hw => by
+        obtain ⟨h, hh, rfl⟩ := List.mem_map.mp hw
+        exact (hplain h (hsub2 h hh)).1)
+      (fun w hw => by
+        obtain ⟨h, hh, rfl⟩ := List.mem_map.mp hw
+        exact (hplain h (hsub2 h hh)).2)
+    -- put the stages together
+    unfold finish
+    simp only [h2, Bool.false_eq_true, ↓reduceIte]
+    rw [← hes, ha1]
+    simp only
+    rw [ha2]
+    simp only
+    rw [hw1]
+    simp only [Res.ok.injEq]
+    rw [hw3, expand₁_plain, hh2, hh1, hT, hX]
+    unfold specWords
+    have hf1 : (Spec.expand₁ (tgts ws)).filter (fun h => !(((xcls ws).reverse).flatMap Spec.Word.expand₁).contains h) =
+        (Spec.expand₁ (tgts ws)).filter (fun h => !(Spec.expand₁ (xcls ws)).contains h) := by
+      apply List.filter_congr
+      intro h _
+      congr 1
+      rw [Bool.eq_iff_iff]
+      simp [Spec.expand₁, List.contains_iff_mem]
+    rw [hf1]
+    apply List.filter_congr
+    intro h _
+    simp [keepAll, List.all_reverse]
 
 theorem cliFinal_eq_cliWords (cfg : Cfg) (env : Env) (evs : List Ev) :
     cliFinal cfg env evs = cliWords cfg env (evs.flatMap evWords) := rfl
@@ -353,7 +488,7 @@ def demoEnv : Env :=
     rematch := fun p h => if p = "3".toList then some (h.contains '3') else none }
 
 theorem demo_domain : Domain Cfg.repaired demoEnv demoWords := by
-  refine ⟨⟨?_, ?_, ?_⟩, by decide, ?_, ?_, ?_, ?_, ?_⟩
+  refine ⟨⟨?_, ?_, ?_⟩, by decide, ?_, ?_, ?_, ?_, ?_, ?_⟩
   · intro w hw
     simp only [demoWords, tgts, List.mem_cons, List.mem_nil_iff, or_false] at hw
     rcases hw with rfl | rfl
@@ -387,6 +522,21 @@ theorem demo_domain : Domain Cfg.repaired demoEnv demoWords := by
     · decide
     · intro x hx
       simp only [Spec.Word.expand₁, List.mem_cons, List.mem_nil_iff, or_false] at hx
+      subst hx
+      unfold SmallName
+      decide
+  · intro _ w hw n hn
+    simp only [demoWords, xcls, List.mem_cons, List.mem_nil_iff, or_false] at hw
+    subst hw
+    simp only [Spec.Word.expand₁, List.mem_cons, List.mem_nil_iff, or_false] at hn
+    subst hn
+    refine ⟨_, rfl, ?_, ?_, ?_, ?_, ?_⟩
+    · exact ⟨by decide, by decide⟩
+    · decide
+    · decide
+    · decide
+    · intro x hx
+      simp only [List.mem_cons, List.mem_nil_iff, or_false] at hx
       subst hx
       unfold SmallName
       decide
